@@ -1,12 +1,527 @@
-//! C17 — not built yet (stub).
+//! C17 — concurrent chain use neither deadlocks nor exposes uncommitted state.
+//!
+//! A world (fork tree of real-PoW blocks) is built sequentially on a builder
+//! chain. A fresh target chain is then used by several threads at once:
+//! "peers" delivering the blocks of competing forks (overlapping, each in
+//! its own order), header-first threads, readers and (on the 90-block base
+//! chain) a compaction thread. A seeded perturbation plan installed through
+//! the cfg(grin_verif) sched_point hook yields / sleeps at lock acquisitions
+//! so that race windows differ from run to run. Interleavings are SAMPLED.
 
 use crate::engine::*;
-use serde_json::Value;
+use crate::props::c02::{base, clone_world, scan};
+use crate::world::gen::*;
+use crate::world::*;
+use crate::{ensure, fail};
+use grin_chain::types::Options;
+use grin_core::core::hash::{Hash, Hashed};
+use grin_core::core::{Block, Inputs};
+use proptest::prelude::*;
+use serde_derive::{Deserialize, Serialize};
+use serde_json::{json, Value};
+use std::collections::HashMap;
+use std::sync::atomic::{AtomicBool, AtomicU64, Ordering};
+use std::sync::{Arc, Mutex};
+use std::time::{Duration, Instant};
 
-pub fn run(_ctx: &Ctx) -> HResult<()> {
-	Err(HarnessError("C17 check not built yet".into()))
+#[derive(Clone, Debug, Serialize, Deserialize)]
+pub struct Case {
+	pub on_base: bool,
+	pub blocks: Vec<RawBlock>,
+	pub peers: u8,
+	pub header_threads: u8,
+	pub readers: u8,
+	pub compact: bool,
+	/// perturbation: probability (per mille) of a sleep / a yield at a sched point, max sleep in µs
+	pub p_sleep: u16,
+	pub p_yield: u16,
+	pub max_sleep_us: u16,
+	pub plan_seed: u64,
 }
 
-pub fn replay(_ctx: &Ctx, _part: &str, _case: &Value) -> PResult {
+pub fn case_strategy() -> impl Strategy<Value = Case> {
+	let blk = (raw_block(0), prop_oneof![7 => Just(0u8), 5 => Just(1u8), 4 => 2u8..5, 5 => 101u8..105]).prop_map(|(mut b, p)| {
+		b.parent = p;
+		b
+	});
+	(
+		prop::bool::weighted(0.3),
+		prop::collection::vec(blk, 6..16),
+		2u8..=4,
+		0u8..=2,
+		1u8..=3,
+		any::<bool>(),
+		(0u16..300, 0u16..500, 50u16..2000),
+		any::<u64>(),
+	)
+		.prop_map(|(on_base, blocks, peers, header_threads, readers, compact, (p_sleep, p_yield, max_sleep_us), plan_seed)| Case {
+			on_base,
+			blocks,
+			peers,
+			header_threads,
+			readers,
+			compact,
+			p_sleep,
+			p_yield,
+			max_sleep_us,
+			plan_seed,
+		})
+}
+
+thread_local! {
+	static TNAME: std::cell::RefCell<(usize, u64)> = std::cell::RefCell::new((usize::MAX, 0));
+}
+
+struct Progress {
+	/// per worker: (last sched label, when, finished)
+	table: Mutex<Vec<(String, Instant, bool)>>,
+	in_process_block: AtomicU64,
+	overlap_seen: AtomicBool,
+}
+
+fn roots_of(chain: &grin_chain::Chain) -> Result<String, String> {
+	let tx = chain.txhashset();
+	let r = tx.read().roots().map_err(|e| format!("{:?}", e))?;
+	Ok(format!("{:?}/{:?}/{:?}/{:?}", r.output_roots.pmmr_root, r.output_roots.bitmap_root, r.rproof_root, r.kernel_root))
+}
+
+pub fn run_case(ctx: &Ctx, case: &Case, counting: bool) -> PResult {
+	init_global(); // worker threads inherit the global chain type
+	init_thread();
+	let ev = &ctx.ev;
+	// ---- build the world sequentially on a builder chain
+	let (builder, mut w, mut head, first_new) = if case.on_base {
+		let b = base(ctx).map_err(|e| Fail::new("harness:base", e))?;
+		let dir = ctx.scratch_dir("c17b");
+		copy_dir(&b.dir, &dir).map_err(|e| Fail::new("harness:copy", e.to_string()))?;
+		let cb = ChainBox::open(&dir).map_err(|e| Fail::new("init-base-copy", e))?;
+		let w = clone_world(&b.world);
+		let h = w.nodes.len() - 1;
+		(cb, w, h, h + 1)
+	} else {
+		let cb = ChainBox::open(&ctx.scratch_dir("c17b")).map_err(|e| Fail::new("init-fresh", e))?;
+		let w = World::new(&cb.genesis, true);
+		(cb, w, 0usize, 1usize)
+	};
+	for (i, raw) in case.blocks.iter().enumerate() {
+		let built = w.build(builder.c(), raw, head).map_err(|e| Fail::new("builder", format!("block {}: {}", i, e)))?;
+		let Ok(m) = built.verdict.clone() else { continue };
+		match builder.c().process_block(built.block.clone(), Options::NONE) {
+			Ok(tip) => {
+				let n = w.push(&built, m);
+				if tip.is_some() {
+					head = n;
+				}
+			}
+			Err(e) => fail!("valid-block-rejected", "builder rejected block {}: {}", i, err_name(&e)),
+		}
+	}
+	let final_roots = roots_of(builder.c()).map_err(|e| Fail::new("roots-err", e))?;
+	let best = head;
+	let n_nodes = w.nodes.len();
+	if n_nodes <= first_new {
+		return Ok(());
+	}
+	let max_td = (0..n_nodes).map(|k| w.nodes[k].block.header.total_difficulty().to_num()).max().unwrap();
+	let unique_max = (0..n_nodes).filter(|&k| w.nodes[k].block.header.total_difficulty().to_num() == max_td).count() == 1;
+	// ---- the target chain
+	let target = if case.on_base {
+		let b = base(ctx).map_err(|e| Fail::new("harness:base", e))?;
+		let dir = ctx.scratch_dir("c17t");
+		copy_dir(&b.dir, &dir).map_err(|e| Fail::new("harness:copy", e.to_string()))?;
+		ChainBox::open(&dir).map_err(|e| Fail::new("init-base-copy", e))?
+	} else {
+		ChainBox::open(&ctx.scratch_dir("c17t")).map_err(|e| Fail::new("init-fresh", e))?
+	};
+	let chain = target.arc();
+	let w = Arc::new(w);
+	// hash → node
+	let by_hash: Arc<HashMap<Hash, usize>> = Arc::new((0..n_nodes).map(|k| (w.nodes[k].hash(), k)).collect());
+	let n_workers = case.peers as usize + case.header_threads as usize + case.readers as usize + if case.compact && case.on_base { 1 } else { 0 };
+	let progress = Arc::new(Progress {
+		table: Mutex::new(vec![("start".to_string(), Instant::now(), false); n_workers]),
+		in_process_block: AtomicU64::new(0),
+		overlap_seen: AtomicBool::new(false),
+	});
+	// ---- perturbation plan
+	{
+		let (ps, py, ms, seed) = (case.p_sleep as u64, case.p_yield as u64, case.max_sleep_us as u64, case.plan_seed);
+		let prog = progress.clone();
+		grin_util::verif::set_sched_plan(Some(Arc::new(move |label: &str| {
+			let (idx, n) = TNAME.with(|t| {
+				let mut t = t.borrow_mut();
+				t.1 += 1;
+				*t
+			});
+			if idx == usize::MAX {
+				return;
+			}
+			if let Ok(mut tb) = prog.table.lock() {
+				tb[idx].0 = label.to_string();
+				tb[idx].1 = Instant::now();
+			}
+			if label == "got:process_block" {
+				// (released when the worker returns from process_block)
+			}
+			let r = hash_of(&(seed, idx, n, label));
+			let x = r % 1000;
+			if x < ps {
+				std::thread::sleep(Duration::from_micros(1 + (r >> 20) % ms));
+			} else if x < ps + py {
+				std::thread::yield_now();
+			}
+		})));
+		grin_util::verif::sched_enable(true);
+	}
+	let failures: Arc<Mutex<Vec<Fail>>> = Arc::new(Mutex::new(vec![]));
+	let stop_readers = Arc::new(AtomicBool::new(false));
+	let observed_heads = Arc::new(AtomicU64::new(0));
+	let mut handles = vec![];
+	let mut widx = 0usize;
+	let order_for = |k: u64, all: &Vec<usize>| -> Vec<usize> {
+		// each peer: a subset in a perturbed order (mostly parents first, sometimes not)
+		let mut v: Vec<(u64, usize)> = all.iter().map(|&n| (hash_of(&(case.plan_seed, k, n)) % 100, n)).collect();
+		v.retain(|(r, _)| *r < 80); // skips some blocks; other peers deliver them
+		let mut v: Vec<usize> = v.into_iter().map(|x| x.1).collect();
+		// local swaps
+		for i in 0..v.len().saturating_sub(1) {
+			if hash_of(&(case.plan_seed, k, i, "swap")) % 4 == 0 {
+				v.swap(i, i + 1);
+			}
+		}
+		v
+	};
+	let new_nodes: Vec<usize> = (first_new..n_nodes).collect();
+	let fail_push = |failures: &Arc<Mutex<Vec<Fail>>>, f: Fail| failures.lock().unwrap().push(f);
+	// peers
+	for p in 0..case.peers as u64 {
+		let mut order = order_for(p, &new_nodes);
+		if p == 0 {
+			order = new_nodes.clone(); // one peer has everything, in order
+		}
+		let (chain, w, prog, failures) = (chain.clone(), w.clone(), progress.clone(), failures.clone());
+		let my = widx;
+		widx += 1;
+		handles.push(std::thread::Builder::new().name(format!("peer{}", p)).spawn(move || {
+			init_thread();
+			TNAME.with(|t| *t.borrow_mut() = (my, 0));
+			let r = catch(|| {
+				for round in 0..2 {
+					for &n in &order {
+						let b: Block = w.nodes[n].block.clone();
+						let c = prog.in_process_block.fetch_add(1, Ordering::SeqCst);
+						if c >= 1 {
+							prog.overlap_seen.store(true, Ordering::SeqCst);
+						}
+						let res = chain.process_block(b, Options::NONE);
+						prog.in_process_block.fetch_sub(1, Ordering::SeqCst);
+						match res {
+							Ok(_) => {}
+							Err(grin_chain::Error::Orphan) | Err(grin_chain::Error::Unfit(_)) => {}
+							// parent HEADER not known to this chain yet (a child delivered before
+							// its parent without headers-first): refused, not kept as an orphan
+							Err(grin_chain::Error::StoreErr(_, ref m)) if m.contains("BLOCK HEADER") => {}
+							Err(e) => {
+								// a block that is valid in the world must never be refused for another reason
+								return Err(Fail::new("valid-block-rejected-concurrently", format!("peer {} round {}: node {} (h={}) rejected: {}", p, round, n, w.nodes[n].height(), err_name(&e))));
+							}
+						}
+					}
+				}
+				Ok(())
+			});
+			match r {
+				Ok(Ok(())) => {}
+				Ok(Err(f)) | Err(f) => fail_push(&failures, f),
+			}
+			prog.table.lock().unwrap()[my].2 = true;
+		}).unwrap());
+	}
+	// header-first threads
+	for hti in 0..case.header_threads as u64 {
+		let (chain, w, prog, failures) = (chain.clone(), w.clone(), progress.clone(), failures.clone());
+		let nodes = new_nodes.clone();
+		let my = widx;
+		widx += 1;
+		handles.push(std::thread::Builder::new().name(format!("hdr{}", hti)).spawn(move || {
+			init_thread();
+			TNAME.with(|t| *t.borrow_mut() = (my, 0));
+			let r = catch(|| {
+				for &n in &nodes {
+					match chain.process_block_header(&w.nodes[n].block.header, Options::NONE) {
+						Ok(()) => {}
+						Err(e) => {
+							let s = format!("{:?}", e);
+							// parent header not yet known to this chain: legitimate
+							if !(s.contains("NotFound") || s.contains("Orphan")) {
+								return Err(Fail::new("valid-header-rejected-concurrently", format!("header of node {} rejected: {}", n, s)));
+							}
+						}
+					}
+				}
+				Ok(())
+			});
+			match r {
+				Ok(Ok(())) => {}
+				Ok(Err(f)) | Err(f) => fail_push(&failures, f),
+			}
+			prog.table.lock().unwrap()[my].2 = true;
+		}).unwrap());
+	}
+	// readers
+	for ri in 0..case.readers as u64 {
+		let (chain, w, prog, failures, stop, by_hash, heads) = (chain.clone(), w.clone(), progress.clone(), failures.clone(), stop_readers.clone(), by_hash.clone(), observed_heads.clone());
+		let my = widx;
+		widx += 1;
+		handles.push(std::thread::Builder::new().name(format!("reader{}", ri)).spawn(move || {
+			init_thread();
+			TNAME.with(|t| *t.borrow_mut() = (my, 0));
+			let r = catch(|| {
+				let mut last_td = 0u64;
+				let mut seen: Vec<Hash> = vec![];
+				let mut it = 0u64;
+				while !stop.load(Ordering::SeqCst) {
+					it += 1;
+					let h1 = chain.head().map_err(|e| Fail::new("head-err", format!("{:?}", e)))?;
+					if !seen.contains(&h1.last_block_h) {
+						seen.push(h1.last_block_h);
+					}
+					// a reported head names a stored block with matching height and work
+					let hdr = chain.get_block_header(&h1.last_block_h).map_err(|e| Fail::new("head-names-missing-header", format!("head {:?}@{}: {:?}", h1.last_block_h, h1.height, e)))?;
+					let blk = chain.get_block(&h1.last_block_h).map_err(|e| Fail::new("head-names-missing-block", format!("head {:?}@{}: {:?}", h1.last_block_h, h1.height, e)))?;
+					ensure!(hdr.height == h1.height && blk.header.height == h1.height, "head-height-mismatch", "head height {} header {} block {}", h1.height, hdr.height, blk.header.height);
+					ensure!(hdr.total_difficulty() == h1.total_difficulty, "head-difficulty-mismatch", "head td differs from its header");
+					let td = h1.total_difficulty.to_num();
+					ensure!(td >= last_td, "head-work-decreased", "reader saw head work go from {} to {}", last_td, td);
+					last_td = td;
+					let Some(&hn) = by_hash.get(&h1.last_block_h) else {
+						return Err(Fail::new("head-unknown", "head is not a block of the world"));
+					};
+					// bracketed reads: consistent with the model of h1 if the head did not move meanwhile
+					let model = &w.nodes[hn].model;
+					let probe: Vec<(Vec<u8>, bool)> = w
+						.commits
+						.iter()
+						.enumerate()
+						.filter(|(i, _)| (*i as u64 + it) % 5 == ri % 5)
+						.take(24)
+						.map(|(_, c)| (c.0.to_vec(), model.utxo.contains_key(&c.0.to_vec())))
+						.collect();
+					let mut got = vec![];
+					for (c, _) in &probe {
+						let cm = grin_util::secp::pedersen::Commitment::from_vec(c.clone());
+						let r = match it % 3 {
+							0 => chain.get_unspent(cm).map(|o| o.is_some()).map_err(|e| format!("{:?}", e)),
+							1 => {
+								let r = w.refs[c];
+								let inputs: Inputs = vec![grin_core::core::Input::new(r.features(), cm)].as_slice().into();
+								Ok(chain.validate_inputs(&inputs).is_ok())
+							}
+							_ => Ok(chain.get_unspent(cm).map(|o| o.is_some()).unwrap_or(false)),
+						};
+						got.push(r);
+					}
+					let _ = chain.get_header_by_height(h1.height);
+					let h2 = chain.head().map_err(|e| Fail::new("head-err", format!("{:?}", e)))?;
+					if h1.last_block_h == h2.last_block_h {
+						for ((c, want), g) in probe.iter().zip(got.iter()) {
+							match g {
+								Ok(g) => ensure!(
+									g == want,
+									"inconsistent-read-under-one-view",
+									"head stayed {:?}@{} around the read, but output {} reported unspent={} while the state of that head says {}",
+									h1.last_block_h,
+									h1.height,
+									grin_util::ToHex::to_hex(c),
+									g,
+									want
+								),
+								Err(e) => fail!("read-error", "get_unspent failed: {}", e),
+							}
+						}
+					}
+					// set_txhashset_roots on a child of some known node must reproduce the builder's roots
+					if it % 4 == 0 {
+						let k = first_new + ((it as usize * 7 + ri as usize) % (n_nodes - first_new));
+						let child = &w.nodes[k];
+						let mut b = child.block.clone();
+						let orig = b.header.clone();
+						b.header.output_root = Hash::default();
+						b.header.kernel_root = Hash::default();
+						b.header.range_proof_root = Hash::default();
+						b.header.output_mmr_size = 0;
+						b.header.kernel_mmr_size = 0;
+						if chain.set_txhashset_roots(&mut b).is_ok() {
+							ensure!(
+								b.header.output_root == orig.output_root && b.header.kernel_root == orig.kernel_root && b.header.range_proof_root == orig.range_proof_root && b.header.output_mmr_size == orig.output_mmr_size && b.header.kernel_mmr_size == orig.kernel_mmr_size,
+								"roots-of-candidate-differ",
+								"set_txhashset_roots on the child of node {} gave roots/sizes different from the sequential builder",
+								child.parent
+							);
+						}
+					}
+					if it % 16 == 5 {
+						if let Ok(s) = chain.segmenter() {
+							let _ = s.kernel_segment(grin_core::core::SegmentIdentifier { height: 3, idx: 0 });
+						}
+					}
+				}
+				heads.fetch_max(seen.len() as u64, Ordering::SeqCst);
+				Ok(())
+			});
+			match r {
+				Ok(Ok(())) => {}
+				Ok(Err(f)) | Err(f) => fail_push(&failures, f),
+			}
+			prog.table.lock().unwrap()[my].2 = true;
+		}).unwrap());
+	}
+	// compaction thread
+	let reader_first = case.peers as usize + case.header_threads as usize;
+	if case.compact && case.on_base {
+		let (chain, prog, failures) = (chain.clone(), progress.clone(), failures.clone());
+		let my = widx;
+		handles.push(std::thread::Builder::new().name("compact".into()).spawn(move || {
+			init_thread();
+			TNAME.with(|t| *t.borrow_mut() = (my, 0));
+			let r = catch(|| {
+				std::thread::sleep(Duration::from_millis(3));
+				chain.compact().map_err(|e| Fail::new("compact-err", format!("{:?}", e)))
+			});
+			match r {
+				Ok(Ok(())) => {}
+				Ok(Err(f)) | Err(f) => fail_push(&failures, f),
+			}
+			prog.table.lock().unwrap()[my].2 = true;
+		}).unwrap());
+	}
+	// ---- wait for the writers with a watchdog
+	let writers_done = |tb: &Vec<(String, Instant, bool)>| tb.iter().enumerate().all(|(i, x)| x.2 || (i >= reader_first && i < reader_first + case.readers as usize));
+	let t0 = Instant::now();
+	let mut stalled = false;
+	loop {
+		std::thread::sleep(Duration::from_millis(5));
+		let tb = progress.table.lock().unwrap().clone();
+		if writers_done(&tb) {
+			break;
+		}
+		let newest = tb.iter().map(|x| x.1).max().unwrap();
+		if newest.elapsed() > Duration::from_secs(45) || t0.elapsed() > Duration::from_secs(300) {
+			stalled = true;
+			break;
+		}
+	}
+	stop_readers.store(true, Ordering::SeqCst);
+	if !stalled {
+		let t1 = Instant::now();
+		loop {
+			let tb = progress.table.lock().unwrap().clone();
+			if tb.iter().all(|x| x.2) {
+				break;
+			}
+			if t1.elapsed() > Duration::from_secs(60) {
+				stalled = true;
+				break;
+			}
+			std::thread::sleep(Duration::from_millis(2));
+		}
+	}
+	grin_util::verif::sched_enable(false);
+	grin_util::verif::set_sched_plan(None);
+	if stalled {
+		let tb = progress.table.lock().unwrap().clone();
+		let stuck: Vec<String> = tb.iter().enumerate().filter(|(_, x)| !x.2).map(|(i, x)| format!("worker{}@{} ({:.0}s ago)", i, x.0, x.1.elapsed().as_secs_f64())).collect();
+		let all_waiting = tb.iter().filter(|x| !x.2).all(|x| x.0.starts_with("want:"));
+		// leak the threads: they hold locks of this case's chain only
+		std::mem::forget(handles);
+		std::mem::forget(target);
+		if all_waiting {
+			return Err(Fail::new("deadlock", format!("no progress for 45 s and every unfinished worker is waiting for a lock: {:?}", stuck)));
+		}
+		return Err(Fail::new("harness:stall-inconclusive", format!("no progress, but not all workers are at a lock acquisition: {:?}", stuck)));
+	}
+	for h in handles {
+		let _ = h.join();
+	}
+	if let Some(f) = failures.lock().unwrap().first().cloned() {
+		return Err(f);
+	}
+	// ---- final state: some sequential order's result
+	let fh = chain.head().map_err(|e| Fail::new("head-err", format!("{:?}", e)))?;
+	ensure!(fh.total_difficulty.to_num() == max_td, "final-head-not-most-work", "final head td {} but the most-work block has {}", fh.total_difficulty.to_num(), max_td);
+	drop(chain);
+	if unique_max {
+		ensure!(fh.last_block_h == w.nodes[best].hash(), "final-head-not-winner", "final head differs from the unique most-work block");
+		let fr = roots_of(target.c()).map_err(|e| Fail::new("roots-err", e))?;
+		ensure!(fr == final_roots, "final-roots-differ-from-sequential", "roots after the concurrent run differ from the sequential builder: {} vs {}", fr, final_roots);
+	}
+	let wref: &World = &w;
+	scan(&target, wref, "after the concurrent run")?;
+	target.c().validate(false).map_err(|e| Fail::new("validate-failed", format!("{:?}", e)))?;
+	if counting {
+		ev.eval();
+		let heads = observed_heads.load(Ordering::SeqCst);
+		if progress.overlap_seen.load(Ordering::SeqCst) {
+			ev.class("runs_with_overlapping_process_block_calls");
+		}
+		if heads >= 2 {
+			ev.class("runs_where_a_reader_saw_2plus_heads");
+		}
+		if case.compact && case.on_base {
+			ev.class("runs_with_concurrent_compaction");
+		}
+		if progress.overlap_seen.load(Ordering::SeqCst) && heads >= 2 {
+			ev.nontrivial(&(case.peers, case.header_threads, case.readers, case.on_base, case.compact, n_nodes - first_new, heads.min(6)));
+		}
+	}
+	drop(builder);
 	Ok(())
+}
+
+pub fn run(ctx: &Ctx) -> HResult<()> {
+	init_global();
+	let ev = &ctx.ev;
+	ev.rule("a fork tree of real-PoW blocks is built sequentially; a fresh chain is then used concurrently by 2-4 peer threads delivering overlapping subsets of the blocks in perturbed orders (twice), 0-2 header-first threads, 1-3 reader threads (head / get_block / get_block_header / get_unspent / validate_inputs / get_header_by_height / set_txhashset_roots on candidate children / segmenter) and a compaction thread on the 90-block base chain, with a seeded perturbation plan (sleep / yield at lock-acquisition points through the cfg(grin_verif) hook); oracles: every observed head names a stored block of matching height and work, head work never decreases per reader, reads bracketed by two equal heads equal the replay model of that head, set_txhashset_roots reproduces the sequential roots, no panic, no stall (45 s without progress; a deadlock is only claimed if every unfinished worker waits for a lock), final head = most work, final roots = sequential builder's, full scan vs. model and validate(false); non-trivial = run with overlapping process_block calls where a reader saw >= 2 heads; distinct by thread mix / world size / heads seen");
+	ev.assume("interleavings are sampled, not enumerated: a seed fixes the operation multiset and the perturbation plan, not the exact schedule");
+	if let Some((case, f)) = pbt_proc(ctx, "run", ctx.n(256, 4000), 8) {
+		if f.sig.starts_with("harness:") {
+			return Err(HarnessError(format!("{}: {}", f.sig, f.msg)));
+		}
+		ctx.report("run", &f.sig, case, &f.msg);
+	}
+	let s = sample_one(ctx.derive_seed("sample", 0), &case_strategy());
+	ev.sample("run", || serde_json::to_value(&s).unwrap());
+	let _ = json!(0);
+	Ok(())
+}
+
+pub fn part(ctx: &Ctx, part: &str, seed: u64, cases: u32) -> Option<(Value, Fail)> {
+	init_global();
+	match part {
+		"run" => {
+			// warm up the bulletproof generators single-threaded (their lazy
+			// initialisation in the secp library is not synchronised)
+			let _ = LIB.output(&OutRef { amount: 1, key: 1, cb: false });
+			if base(ctx).is_err() {
+				return Some((json!({}), Fail::new("harness:base", "base chain")));
+			}
+			run_part(ctx, seed, cases, &case_strategy(), |c, counting| run_case(ctx, c, counting))
+		}
+		_ => None,
+	}
+}
+
+pub fn replay(ctx: &Ctx, part: &str, case: &Value) -> PResult {
+	init_global();
+	match part {
+		"run" => {
+			let c: Case = serde_json::from_value(case.clone()).map_err(|e| Fail::new("harness:replay-parse", e.to_string()))?;
+			// the schedule is not reproducible: repeat the plan several times
+			for _ in 0..5 {
+				run_case(ctx, &c, false)?;
+			}
+			Ok(())
+		}
+		_ => Ok(()),
+	}
 }
